@@ -741,6 +741,21 @@ def rule_policy(ctx: Ctx) -> None:
     sel = _selected_then_destroyed(hsc, ("pop",))
     ctx.tri("3-policy", hyb.methods["put"], sel[0][1] if sel else hyb.methods["put"].node, bool(sel) and all(k == "min" for k, _ in sel), any(k == "max" for k, _ in sel),
             "Hybrid evicts the entry with the lowest score (min)", "Hybrid eviction deletes the entry selected by max(score): the most valuable entry is dropped", "no min()/max() selection feeding a delete found", key="hybrid-evict-min")
+    # ... chosen among ALL resident entries: a candidate set that leaves entries out (`if k != key`) picks the wrong victim, and is
+    # empty for max_size == 1 (min() of nothing raises)
+    from ..flow import narrowings
+
+    cand = []
+    for f_, n_ in hsc.walk():
+        if isinstance(n_, ast.Call) and dotted(n_.func) in ("min", "max") and n_.args:
+            src = Defs(f_).resolve(n_.args[0])
+            for nm in [x.id for x in ast.walk(src) if isinstance(x, ast.Name)]:
+                for a_ in ast.walk(f_.node):
+                    if isinstance(a_, ast.Assign) and any(isinstance(t, ast.Name) and t.id == nm for t in a_.targets):
+                        cand += [(f_, a_, why) for _x, why in narrowings(a_.value)]
+            cand += [(f_, n_, why) for _x, why in narrowings(src)]
+    ctx.add("3-policy", cand[0][0] if cand else hyb.methods["put"], cand[0][1] if cand else hyb.methods["put"].node, not cand, "Hybrid scores every resident entry before it picks the victim" if not cand else
+            f"the eviction candidates of HybridCache are restricted ({cand[0][2]}): the entry with the lowest score may be exempt - another entry is evicted in its place, and with a single resident entry min() of nothing raises", key="hybrid-all-candidates")
     disk = ctx.prog.cls(f"{MOD}.DiskCache")
     ev = disk.methods["_evict_if_needed"]
     dsc = Scope(ctx, ev)
@@ -1099,6 +1114,13 @@ def rule_stores(ctx: Ctx) -> None:
             path=cfg.describe(wp, dp.module.relpath) if wp else None)
     d = Defs(dp)
     # the front cache by whatever local name: `memory = self.lru_cache if self.with_lru_cache else None; memory.put(...)`
+    # the directory is brought back under its bound AFTER the file was written: only then does the listing say whether this put
+    # added a file at all (a re-put of a resident key adds none - evicting beforehand, on the assumption that it will, loses an entry)
+    ev_nodes = cfg.nodes(lambda s_: any(isinstance(c, ast.Call) and norm(c.func) == "self._evict_if_needed" for part in header_parts(s_) for c in ast.walk(part)))
+    if ev_nodes and w:
+        early = [e_ for e_ in ev_nodes if not cfg.must_pass(ENTRY, e_, w, normal_only=True)]
+        ctx.add("7-disk-bound", dp, cfg.stmt[early[0]] if early else cfg.stmt[ev_nodes[0]], not early, "DiskCache.put evicts after the file was written" if not early else
+                "DiskCache.put evicts BEFORE it writes the file: the eviction has to guess whether the put adds a file - re-putting a resident key into a full directory evicts the oldest entry although nothing was added", key="disk-evict-after-write")
     lp = [c for c in ast.walk(dp.node) if isinstance(c, ast.Call) and isinstance(c.func, ast.Attribute) and c.func.attr == "put" and "self.lru_cache" in norm(d.resolve(c.func.value))]
     same = bool(lp) and [norm(d.resolve(a)) for a in lp[0].args] == [key, value]
     ctx.tri("8-stores", dp, lp[0] if lp else dp.node, same, not lp, "the in-memory LRU of a DiskCache is updated with the same value",
